@@ -271,7 +271,11 @@ static void parse_args(int argc,char**argv){ params=new std::map<std::string,std
     else if(a=="-hb"||a=="-tso"){ (*params)[a.substr(1)]="1"; }
     else if(a=="-p"){ std::string kv=next(); size_t e=kv.find('='); if(e==std::string::npos) (*params)[kv]="1"; else (*params)[kv.substr(0,e)]=kv.substr(e+1); }
     else { fprintf(stderr,"unknown option %s\n",a.c_str()); exit(2); } }
-  if(O.jobs<1) O.jobs=1; if(O.jobs>64) O.jobs=64; }
+  if(O.jobs<1) O.jobs=1; if(O.jobs>64) O.jobs=64;
+  // wall-clock limits per execution are meant for a machine that has a core for every job: on an overloaded machine (load average
+  // above the number of cores) they are stretched by that ratio (at most 30x), so that a slow execution is not taken for a hang
+  { double l1=0; FILE* f=fopen("/proc/loadavg","r"); if(f){ if(fscanf(f,"%lf",&l1)!=1) l1=0; fclose(f);} long nc=sysconf(_SC_NPROCESSORS_ONLN); if(nc<1) nc=1;
+    double k=l1/(double)nc; if(k>1.0){ if(k>30.0) k=30.0; O.exec_timeout=(int)(O.exec_timeout*k)+1; } } }
 // -1 = command line not parsed yet (static initialisers of the code under test run atomics before main): callers must not cache that
 extern "C" int vf_mode_hb(){ return params ? (int)params->count("hb") : -1; }
 extern "C" int vf_mode_tso(){ return params ? (int)params->count("tso") : -1; }
